@@ -308,3 +308,7 @@ pub unsafe fn counted_alloc_zeroed(layout: std::alloc::Layout) -> *mut u8 { ALLO
 #[derive(Debug, PartialEq)]
 pub struct NoSend(pub u8, pub core::marker::PhantomData<*const ()>);
 pub fn nosend(v: u8) -> NoSend { NoSend(v, core::marker::PhantomData) }
+/// Send + 'static but NOT Sync (C07: the spawn variants may require exactly Send + 'static of branch values)
+#[derive(Debug, PartialEq)]
+pub struct SendOnly(pub u8, pub core::marker::PhantomData<core::cell::Cell<()>>);
+pub fn sendonly(v: u8) -> SendOnly { SendOnly(v, core::marker::PhantomData) }
